@@ -29,4 +29,8 @@ def idx (d : List UInt8) (i : Nat) : Res CErr UInt8 := rd d i
 def tailFrom (d : List UInt8) (n : Nat) : Res CErr (List UInt8) :=
   if n ≤ d.length then .ok (d.drop n) else .panic
 
+/-- `let mut v = vec![0; n]; for i in 0..n { v[i] = d[i + k]; }` — panics when some `i + k` is not an index of `d` -/
+def copyFrom (d : List UInt8) (k n : Nat) : Res CErr (List UInt8) :=
+  if k + n ≤ d.length ∨ n = 0 then .ok ((d.drop k).take n) else .panic
+
 end Ross.Prim
